@@ -16,6 +16,7 @@ import (
 	"github.com/LiskHQ/lisk-engine/pkg/codec"
 	"github.com/LiskHQ/lisk-engine/pkg/consensus"
 	"github.com/LiskHQ/lisk-engine/pkg/consensus/contradiction"
+	"github.com/LiskHQ/lisk-engine/pkg/consensus/liskbft"
 	"github.com/LiskHQ/lisk-engine/pkg/crypto"
 	"github.com/LiskHQ/lisk-engine/pkg/db"
 	"github.com/LiskHQ/lisk-engine/pkg/db/diffdb"
@@ -233,9 +234,11 @@ type genEv struct {
 	After uint32    `json:"after,omitempty"` // forge: state maxHeightPrevoted after the generated block (when it gets applied)
 	Lost  bool      `json:"lost,omitempty"`  // forge: the process dies between persist and hand-off
 	Drop  bool      `json:"drop,omitempty"`  // forge: the handed-over block is not processed (busy executer / full queue)
+	Who   int       `json:"who"`             // forge: index of the enabled generator key whose slot it is
 	// observation (forge)
 	Forged bool       `json:"forged"`
 	Hdr    [3]uint32  `json:"hdr"`              // height, maxHeightPrevoted, maxHeightGenerated
+	Signer int        `json:"signer"`           // index of the key whose address the header carries (-1 unknown)
 	AtHand *[3]uint32 `json:"athand,omitempty"` // generator DB entry when AddInternal is called
 	Stored *[3]uint32 `json:"stored,omitempty"` // generator DB entry after forge returned
 	Panic  string     `json:"panic,omitempty"`
@@ -256,7 +259,15 @@ type fakeCons struct {
 	node    *exh.Node
 	mhp     uint32
 	syncing bool
+	who     *exh.Validator // the generator list in force consists of this validator only: every slot is its slot
 	onAdd   func(b *blockchain.Block)
+}
+
+func (c *fakeCons) GetGeneratorKeys(ctx *diffdb.Database, height uint32) (liskbft.Generators, error) {
+	return liskbft.Generators{liskbft.NewGenerator(c.who.Addr, c.who.Pub)}, nil
+}
+func (c *fakeCons) GetBFTParameters(ctx *diffdb.Database, height uint32) (*liskbft.BFTParams, error) {
+	return c.Executer.GetBFTParameters(ctx, 1) // the fake tip heights have no parameters of their own
 }
 
 func (c *fakeCons) Syncing() bool                   { return c.syncing }
@@ -321,27 +332,55 @@ func info3(i *generator.GeneratorInfo) *[3]uint32 {
 func runGen(rec genRec) genRec {
 	rec.K = "gen"
 	rec.Fail = ""
-	env, err := newGenEnv(1, 10)
+	env, err := newGenEnv(3, 10)
 	if err != nil {
 		rec.Fail = "env: " + err.Error()
 		return rec
 	}
 	defer env.node.DB.Close()
 	defer env.gdb.Close()
-	addr := env.node.Vals[0].Addr
 	tip := rec.T0
 	syncing := false
+	// ONE Generator object lives across the forges (whatever it keeps in memory stays), a restart builds a new one
+	var (
+		chain *blockchain.Chain
+		cons  *fakeCons
+		g     *generator.Generator
+	)
+	start := func() error {
+		chain = blockchain.NewChain(&blockchain.ChainConfig{ChainID: env.node.Opt.ChainID, MaxBlockCache: 10, KeepEventsForHeights: -1})
+		fake := &blockchain.Block{Header: &blockchain.BlockHeader{Version: 2, ID: crypto.Hash([]byte("boot"))}, Assets: blockchain.BlockAssets{}}
+		chain.Init(fake, env.node.DB)
+		cons = &fakeCons{Executer: env.node.Exec, node: env.node, who: env.node.Vals[0]}
+		cons.onAdd = func(b *blockchain.Block) {}
+		var err error
+		g, err = env.newGenerator(cons, chain)
+		return err
+	}
+	if err := start(); err != nil {
+		rec.Fail = "generator init: " + err.Error()
+		return rec
+	}
 	for i := range rec.Evs {
 		ev := &rec.Evs[i]
-		ev.Forged, ev.Hdr, ev.AtHand, ev.Stored, ev.Panic = false, [3]uint32{}, nil, nil, ""
+		ev.Forged, ev.Hdr, ev.AtHand, ev.Stored, ev.Panic, ev.Signer = false, [3]uint32{}, nil, nil, "", -1
 		switch ev.Op {
 		case "tip":
 			tip = ev.T
 		case "sync":
 			syncing = ev.On
 		case "restart":
-			syncing = false // a new Generator object is built for every forge below: nothing else lives in memory
+			syncing = false
+			if err := start(); err != nil {
+				rec.Fail = "generator init: " + err.Error()
+				return rec
+			}
 		case "forge":
+			if ev.Who < 0 || ev.Who >= len(env.node.Vals) {
+				rec.Fail = "who out of range"
+				return rec
+			}
+			who := env.node.Vals[ev.Who]
 			for attempt := 0; attempt < 2 && !ev.Forged && ev.Panic == ""; attempt++ {
 				now := uint32(time.Now().Unix())
 				slot := env.node.Exec.GetSlotNumber(now)
@@ -349,24 +388,22 @@ func runGen(rec genRec) genRec {
 				fake := &blockchain.Block{Header: &blockchain.BlockHeader{Version: 2, Height: tip[1], Timestamp: prevSlotTime,
 					ID: crypto.Hash([]byte(fmt.Sprintf("fake tip %d %d", tip[0], tip[1]))), StateRoot: crypto.Hash([]byte{}),
 					MaxHeightPrevoted: tip[0]}, Assets: blockchain.BlockAssets{}, Transactions: []*blockchain.Transaction{}}
-				chain := blockchain.NewChain(&blockchain.ChainConfig{ChainID: env.node.Opt.ChainID, MaxBlockCache: 10, KeepEventsForHeights: -1})
-				chain.Init(fake, env.node.DB)
+				chain.Init(fake, env.node.DB) // the same Chain object, a fresh cache holding the scripted tip
 				if err := chain.DataAccess().Cache(fake); err != nil {
 					rec.Fail = "cache: " + err.Error()
 					return rec
 				}
-				cons := &fakeCons{Executer: env.node.Exec, node: env.node, mhp: tip[0], syncing: syncing}
-				var g *generator.Generator
+				cons.mhp, cons.syncing, cons.who = tip[0], syncing, who
 				cons.onAdd = func(b *blockchain.Block) {
 					ev.Forged = true
 					ev.Hdr = [3]uint32{b.Header.Height, b.Header.MaxHeightPrevoted, b.Header.MaxHeightGenerated}
-					info, _, _ := g.VerifC15StoredInfo(addr)
+					for vi, v := range env.node.Vals {
+						if string(v.Addr) == string(b.Header.GeneratorAddress) {
+							ev.Signer = vi
+						}
+					}
+					info, _, _ := g.VerifC15StoredInfo(who.Addr)
 					ev.AtHand = info3(info)
-				}
-				g, err = env.newGenerator(cons, chain)
-				if err != nil {
-					rec.Fail = "generator init: " + err.Error()
-					return rec
 				}
 				var startSec int64
 				func() {
@@ -378,7 +415,7 @@ func runGen(rec genRec) genRec {
 					startSec = time.Now().Unix()
 					g.VerifC15Forge()
 				}()
-				info, _, _ := g.VerifC15StoredInfo(addr)
+				info, _, _ := g.VerifC15StoredInfo(who.Addr)
 				ev.Stored = info3(info)
 				// a refusal is final unless the second changed under our feet (slot computed for the fake tip is then stale)
 				if ev.Forged || time.Now().Unix() == startSec && uint32(startSec) == now {
@@ -387,6 +424,13 @@ func runGen(rec genRec) genRec {
 			}
 			if ev.Forged && !ev.Lost && !ev.Drop {
 				tip = [2]uint32{ev.After, tip[1] + 1}
+			}
+			if ev.Lost && ev.Forged { // the process dies between persist and hand-off: what follows runs in a new process
+				syncing = false
+				if err := start(); err != nil {
+					rec.Fail = "generator init: " + err.Error()
+					return rec
+				}
 			}
 		default:
 			rec.Fail = "unknown op " + ev.Op
@@ -403,6 +447,12 @@ func genGen(o *hx.Out, r *hx.Rng, n int) {
 		{Op: "tip", T: [2]uint32{60, 89}}, {Op: "forge", After: 60}, {Op: "forge", After: 60}}}))
 	o.Put(runGen(genRec{T0: [2]uint32{3, 3}, Evs: []genEv{{Op: "forge", After: 3, Drop: true}, {Op: "forge", After: 3}}}))
 	o.Put(runGen(genRec{T0: [2]uint32{0, 6}, Evs: []genEv{{Op: "forge", After: 0}, {Op: "tip", T: [2]uint32{0, 5}}, {Op: "forge", After: 0}}}))
+	// two keys on one node: B generates 12; restart and switch to a better shorter chain; A generates 10; B's slot at 11
+	o.Put(runGen(genRec{T0: [2]uint32{5, 11}, Evs: []genEv{{Op: "forge", Who: 1, After: 5}, {Op: "restart"}, {Op: "tip", T: [2]uint32{5, 9}},
+		{Op: "forge", Who: 0, After: 5}, {Op: "forge", Who: 1, After: 5}}}))
+	// two keys alternating without a restart
+	o.Put(runGen(genRec{T0: [2]uint32{2, 7}, Evs: []genEv{{Op: "forge", Who: 0, After: 2}, {Op: "forge", Who: 1, After: 2}, {Op: "forge", Who: 0, After: 3},
+		{Op: "forge", Who: 2, After: 3}, {Op: "forge", Who: 1, After: 3}}}))
 	for i := 0; i < n; i++ {
 		t := [2]uint32{0, uint32(r.Intn(200))}
 		t[0] = uint32(r.Intn(int(t[1]) + 1))
@@ -421,7 +471,7 @@ func genGen(o *hx.Out, r *hx.Rng, n int) {
 			}
 			switch r.Intn(12) {
 			case 0, 1, 2, 3, 4, 5:
-				ev := genEv{Op: "forge", After: bump(cur[0], r.Intn(2)), Lost: r.Intn(7) == 0, Drop: r.Intn(7) == 0}
+				ev := genEv{Op: "forge", After: bump(cur[0], r.Intn(2)), Lost: r.Intn(7) == 0, Drop: r.Intn(7) == 0, Who: []int{0, 0, 1, 1, 2}[r.Intn(5)]}
 				rec.Evs = append(rec.Evs, ev)
 				if !ev.Lost && !ev.Drop && cur[1] < 0xfffffff8 {
 					cur = [2]uint32{ev.After, cur[1] + 1} // as if it forged; runGen moves the real tip only when it did
@@ -713,9 +763,12 @@ type accRec struct {
 	Rounds    int      `json:"rounds"`  // consecutive forge+process rounds
 	Senders   int      `json:"senders"` // transaction pool: senders x PerSender transactions
 	PerSender int      `json:"persender"`
-	Limit     int      `json:"limit"`    // Genesis.MaxTransactionsSize given to the generator (0 = 15360)
-	BadEvery  int      `json:"badevery"` // every n-th pooled transaction fails verification at generation time (0 = none)
-	Agg       bool     `json:"agg"`      // all validators certify the precommitted height first: a non-empty aggregate commit is available
+	Limit     int      `json:"limit"`     // Genesis.MaxTransactionsSize given to the generator (0 = 15360)
+	BadEvery  int      `json:"badevery"`  // every n-th pooled transaction fails verification at generation time (0 = none)
+	Agg       bool     `json:"agg"`       // all validators certify the precommitted height first: a non-empty aggregate commit is available
+	ExecMix   bool     `json:"execmix"`   // pooled transactions execute as success / fail (included) / invalid (excluded), with and without events
+	NextVals  bool     `json:"nextvals"`  // the application returns a new validator set and thresholds from AfterTransactionsExecute
+	InvalidIn []int    `json:"invalidin"` // transactions scripted to execute as invalid found in the block
 	Forged    []bool   `json:"forged"`
 	Accepted  []bool   `json:"accepted"`
 	TipIs     []bool   `json:"tipis"`
@@ -762,7 +815,31 @@ func (okVerify) VerifyTransaction(req *labi.VerifyTransactionRequest) (*labi.Ver
 // VerifyTransaction while the block is being generated (e.g. insufficient balance at that moment).
 type genABI struct {
 	*exh.ABI
-	bad map[string]bool
+	bad   map[string]bool
+	exec  map[string]int  // 0 success, 1 fail (included), 2 invalid (excluded)
+	hasEv map[string]bool // the execution response carries an event
+}
+
+func txEvent(tx *blockchain.Transaction) *blockchain.Event {
+	return &blockchain.Event{Module: "token", Name: "tx", Data: append([]byte{}, tx.ID[:4]...), Topics: []codec.Hex{append([]byte{}, tx.ID[:8]...)}}
+}
+
+func (m *genABI) ExecuteTransaction(req *labi.ExecuteTransactionRequest) (*labi.ExecuteTransactionResponse, error) {
+	if m.exec == nil {
+		return m.ABI.ExecuteTransaction(req)
+	}
+	id := string(req.Transaction.ID)
+	evs := []*blockchain.Event{}
+	if m.hasEv[id] {
+		evs = append(evs, txEvent(req.Transaction))
+	}
+	switch m.exec[id] {
+	case 2:
+		return &labi.ExecuteTransactionResponse{Result: labi.TxExecuteResultInvalid, Events: evs}, nil
+	case 1:
+		return &labi.ExecuteTransactionResponse{Result: labi.TxExecuteResultFail, Events: evs}, nil
+	}
+	return &labi.ExecuteTransactionResponse{Result: labi.TxExecuteResultSuccess, Events: evs}, nil
 }
 
 func (m *genABI) VerifyTransaction(req *labi.VerifyTransactionRequest) (*labi.VerifyTransactionResponse, error) {
@@ -784,7 +861,7 @@ func poolTx(sender, nonce uint64, fee uint64, plen int) *blockchain.Transaction 
 func runAcc(rec accRec) accRec {
 	rec.K = "acc"
 	rec.Forged, rec.Accepted, rec.TipIs, rec.Errs, rec.Panic, rec.Fail = []bool{}, []bool{}, []bool{}, nil, "", ""
-	rec.NTx, rec.Payload, rec.BadIn, rec.AggH, rec.Pooled = []int{}, []int{}, []int{}, []uint32{}, 0
+	rec.NTx, rec.Payload, rec.BadIn, rec.AggH, rec.Pooled, rec.InvalidIn = []int{}, []int{}, []int{}, []uint32{}, 0, []int{}
 	env, err := newGenEnv(rec.NVal, 2) // 2 s slots: with 1 s slots `now <= slot start + waitThreshold` always holds
 	if err != nil {
 		rec.Fail = "env: " + err.Error()
@@ -811,6 +888,17 @@ func runAcc(rec accRec) accRec {
 		}
 	}
 	seedInfos(env)
+	if rec.NextVals {
+		if n.ABI.S == nil {
+			n.ABI.S = &exh.Script{}
+		}
+		nv := []*labi.Validator{}
+		for _, v := range n.Vals[:len(n.Vals)-1] {
+			nv = append(nv, v.Labi())
+		}
+		thr := uint64(len(nv))*2/3 + 1
+		n.ABI.S.NextValidators, n.ABI.S.PreCommitThreshold, n.ABI.S.CertificateThreshold = nv, thr, thr
+	}
 	if rec.Agg {
 		_, prec, _ := n.Heights()
 		for _, v := range n.Vals {
@@ -827,6 +915,11 @@ func runAcc(rec accRec) accRec {
 		return rec
 	}
 	bad := map[string]bool{}
+	var exec map[string]int
+	hasEv := map[string]bool{}
+	if rec.ExecMix {
+		exec = map[string]int{}
+	}
 	cnt := 0
 	for s := 1; s <= rec.Senders; s++ {
 		for k := 0; k < rec.PerSender; k++ {
@@ -835,6 +928,10 @@ func runAcc(rec accRec) accRec {
 			if rec.BadEvery > 0 && cnt%rec.BadEvery == 0 {
 				bad[string(tx.ID)] = true
 			}
+			if rec.ExecMix {
+				exec[string(tx.ID)] = (s + 2*k) % 3
+				hasEv[string(tx.ID)] = (s+k)%2 == 0
+			}
 			pool.Add(tx)
 		}
 	}
@@ -842,7 +939,7 @@ func runAcc(rec accRec) accRec {
 	rec.Pooled = len(pool.GetProcessable())
 
 	cons := &captureCons{Executer: n.Exec}
-	g := generator.NewGenerator(&generator.GeneratorParams{Consensus: cons, ABI: &genABI{ABI: n.ABI, bad: bad}, Pool: pool, Chain: n.Chain})
+	g := generator.NewGenerator(&generator.GeneratorParams{Consensus: cons, ABI: &genABI{ABI: n.ABI, bad: bad, exec: exec, hasEv: hasEv}, Pool: pool, Chain: n.Chain})
 	if err := g.Init(&generator.GeneratorInitParams{CTX: context.Background(), Cfg: env.cfg, Logger: env.lg, BlockchainDB: n.DB, GeneratorDB: env.gdb}); err != nil {
 		rec.Fail = "generator init: " + err.Error()
 		return rec
@@ -872,13 +969,28 @@ func runAcc(rec accRec) accRec {
 			break
 		}
 		blk := cons.got
-		size, badIn := 0, 0
+		size, badIn, invalidIn := 0, 0, 0
+		txEvs := [][]*blockchain.Event{}
 		for _, tx := range blk.Transactions {
 			size += tx.Size()
 			if bad[string(tx.ID)] {
 				badIn++
 			}
+			if exec != nil && exec[string(tx.ID)] == 2 {
+				invalidIn++
+			}
+			if hasEv[string(tx.ID)] {
+				txEvs = append(txEvs, []*blockchain.Event{txEvent(tx)})
+			} else {
+				txEvs = append(txEvs, nil)
+			}
 		}
+		rec.InvalidIn = append(rec.InvalidIn, invalidIn)
+		// the node executes the block against the same application: the same events for the same transactions
+		if n.ABI.S == nil {
+			n.ABI.S = &exh.Script{}
+		}
+		n.ABI.S.TxEvents = txEvs
 		rec.NTx = append(rec.NTx, len(blk.Transactions))
 		rec.Payload = append(rec.Payload, size)
 		rec.BadIn = append(rec.BadIn, badIn)
@@ -910,6 +1022,8 @@ func genAcc(o *hx.Out, r *hx.Rng, n int) {
 		{NVal: 4, Pre: 2, Rounds: 1, Senders: 4, PerSender: 3, BadEvery: 3},           // some fail verification
 		{NVal: 4, Pre: 2, Rounds: 2, Senders: 4, PerSender: 4, Limit: 500},            // size limit hit, two rounds
 		{NVal: 4, Pre: 14, Rounds: 1, Senders: 2, PerSender: 2, Agg: true, Events: 1}, // aggregate commit available
+		{NVal: 4, Pre: 3, Rounds: 2, Senders: 4, PerSender: 3, ExecMix: true},         // execute success / fail / invalid, with and without events
+		{NVal: 4, Pre: 3, Rounds: 1, Senders: 2, PerSender: 2, NextVals: true},        // the block changes the validator set
 	}
 	for i := 0; i < n; i++ {
 		if i < len(fixed) {
@@ -924,6 +1038,7 @@ func genAcc(o *hx.Out, r *hx.Rng, n int) {
 		if r.Intn(2) == 0 {
 			rec.Limit = 200 + r.Intn(900)
 		}
+		rec.ExecMix = r.Intn(2) == 0
 		if r.Intn(3) == 0 {
 			rec.Agg = true
 			rec.NVal = 4
